@@ -145,6 +145,12 @@ def _catalogue():
         for d in ("sample", "feature"):
             E.append(_sel_entry(kind, d))
     E.append(_sel_entry("VoronoiFPS", "sample"))
+    for kind, d in (("FPS", "sample"), ("CUR", "feature"), ("PCovFPS", "feature")):
+        e3 = _sel_entry(kind, d)
+        e3["name"] = "%s/%s/relative-threshold" % (kind, d)
+        mk3 = e3["make"]
+        e3["make"] = lambda a, mk3=mk3: _with(mk3(a), n_to_select=4, score_threshold=0.35, score_threshold_type="relative")
+        E.append(e3)
     for d in ("sample", "feature"):
         for kind in ("CUR", "PCovCUR"):
             e2 = _sel_entry(kind, d)
@@ -312,6 +318,9 @@ def _catalogue():
         P = X[:, :2] * 3
         return {"X": P, "Y": P[:3] + 0.5, "cell": np.array([2.0, 3.5]), "cov": np.array([[[2.0, 0.5], [0.5, 1.0]], [[1.0, 0.0], [0.0, 1.0]]])}
     E.append(dict(name="periodic_pairwise_euclidean_distances", args=pd_args, func=lambda a: M.periodic_pairwise_euclidean_distances(a["X"], a["Y"], cell_length=a["cell"]), int_ok=set()))
+    nocell = lambda v: {k: x for k, x in pd_args(v).items() if k != "cell"}  # noqa: E731
+    E.append(dict(name="periodic_pairwise_euclidean_distances(no cell)", args=nocell, func=lambda a: M.periodic_pairwise_euclidean_distances(a["X"], a["Y"]), int_ok=set()))
+    E.append(dict(name="pairwise_mahalanobis_distances(no cell)", args=nocell, func=lambda a: M.pairwise_mahalanobis_distances(a["X"], a["Y"], a["cov"]), int_ok=set()))
     E.append(dict(name="pairwise_mahalanobis_distances", args=pd_args, func=lambda a: M.pairwise_mahalanobis_distances(a["X"], a["Y"], a["cov"], cell_length=a["cell"]), int_ok=set()))
 
     def or_args(v):
@@ -595,6 +604,26 @@ def check(case):
                 out2, ok2 = step("repeated call", lambda: e["func"](a))
                 if ok2 and not _close(_plain(out1), _plain(out2), 1e-9):
                     r.fail("repeated-call-differs", "%s (layouts %s)" % (name, lay))
+                # the SAME array objects with new contents (updated in place by the caller) must give the result
+                # of fresh arrays with those contents: nothing may be remembered by object identity
+                if ok2 and all(v in ("C", "F") for v in lay.values()):
+                    changed_any = False
+                    for k, v in a.items():
+                        for arr in (v if isinstance(v, list) else [v]):
+                            if isinstance(arr, np.ndarray) and arr.dtype.kind == "f" and arr.flags.writeable and k not in ("cell", "cov"):
+                                arr *= 1.25
+                                arr += 0.125
+                                changed_any = True
+                    if changed_any:
+                        try:
+                            o3 = e["func"](a)
+                            fresh = {k: ([x.copy() for x in v] if isinstance(v, list) else (v.copy() if isinstance(v, np.ndarray) else v)) for k, v in a.items()}
+                            o4 = e["func"](fresh)
+                            r.transitions += 2
+                            if not _close(_plain(o3), _plain(o4), 1e-9):
+                                r.fail("result-depends-on-array-identity", "%s: same array objects updated in place vs fresh copies" % name)
+                        except Exception as ex:
+                            r.fail("call-fails-after-in-place-update:%s" % type(ex).__name__, "%s: %r" % (name, ex))
             r.states += 1
         else:
             est, ok = step("constructor", lambda: e["make"](a))
